@@ -54,7 +54,8 @@ PROPS = {
         "components": ["client", "connmgr"],
         "required_theorems": ["PgBifrost.Props.C03.acks_monotone", "PgBifrost.Props.C03.acks_sourced",
                               "PgBifrost.Props.C03.ack_is_running_max", "PgBifrost.Props.C03.restart_lsn_exact",
-                              "PgBifrost.Props.C03.client_write_sites_as_modelled"],
+                              "PgBifrost.Props.C03.client_write_sites_as_modelled", "PgBifrost.Props.C03.drain_as_in_source",
+                              "PgBifrost.Props.C03.handle_progress_as_in_source"],
         "assumptions": ["GetConn*/SendStandbyStatus/IdentifySystem do not fail, the progress channel is not closed, "
                         "TerminateCtx is not cancelled (not modelled)",
                         "conn.Manager is modelled (no live connection => dial + START_REPLICATION at the argument); "
@@ -79,7 +80,7 @@ PROPS = {
     "C05": {
         "modules": ["PgBifrost.Props.C05"],
         "components": ["batcher", "crc", "pipeline", "kinesis", "batcherload"],
-        "required_theorems": ["PgBifrost.Props.C05.kinesis_calls_keep_batch_order", "PgBifrost.Props.C05.in_batch_order", "PgBifrost.Props.C05.partition_routing_fixed",
+        "required_theorems": ["PgBifrost.Props.C05.routing_switch_as_in_source", "PgBifrost.Props.C05.kinesis_calls_keep_batch_order", "PgBifrost.Props.C05.in_batch_order", "PgBifrost.Props.C05.partition_routing_fixed",
                               "PgBifrost.Props.C05.per_key_submission_order", "PgBifrost.Props.C05.single_worker_total_order"],
         "partial": "proved up to the worker's input channel (order of batches handed to worker w); that a worker is sequential and its "
                    "channel FIFO is the Go runtime (modelled); submission order at the sink is observed by the pipeline monitor perKeyOrder",
@@ -87,6 +88,8 @@ PROPS = {
     "C06": {
         "modules": ["PgBifrost.Props.C06"],
         "components": ["partitioner", "crc", "batcher"],
+        "required_theorems": ["PgBifrost.Props.C06.partition_switch_as_in_source", "PgBifrost.Props.C06.kinesis_factory_as_modelled",
+                              "PgBifrost.Props.C06.bucket_in_range", "PgBifrost.Props.C06.kinesis_key_choice"],
         "assumptions": ["identifiers are byte strings; bucket count >= 1 (validated by main.go)"],
     },
     "C07": {
